@@ -270,9 +270,44 @@ impl Runnable for C12Enum {
                 acc
             })
             .reduce(EAcc::default, |a, b| a.merge(b));
+        // a second box: many validators with large, nearly equal delegations (pool totals 1e17..1e18), small amounts
+        let mut big: Vec<Vec<u128>> = vec![];
+        for n in [6usize, 7, 9, 12, 14, 15, 17, 18] {
+            for x in [166_666_666_666_666_000u128, 100_000_000_000_000_003, 55_555_555_555_555_555, 999_999_999_999_999_999 / n as u128] {
+                if x * n as u128 > 1_000_000_000_000_000_000 {
+                    continue;
+                }
+                for pat in 0..4u32 {
+                    let mut d = vec![x; n];
+                    match pat {
+                        1 => d[0] += 1,
+                        2 => d[n - 1] -= 1,
+                        3 => {
+                            for (i, v) in d.iter_mut().enumerate() {
+                                *v += i as u128;
+                            }
+                        }
+                        _ => {}
+                    }
+                    big.push(d);
+                }
+            }
+        }
+        let acc2 = big
+            .par_iter()
+            .fold(EAcc::default, |mut acc, d| {
+                let n = d.len() as u128;
+                for a in (0..=(2 * n + 3)).chain([3_997u128, 1_000_003, 10u128.pow(15) + 7]) {
+                    c12_check_one(d, a, &mut acc, None);
+                }
+                acc.count("c12_large_n_lists");
+                acc
+            })
+            .reduce(EAcc::default, |a, b| a.merge(b));
+        let acc = acc.merge(acc2);
         done.store(true, Ordering::Relaxed);
         let _ = wd.join();
-        let n = ls.len() as u64;
+        let n = (ls.len() + big.len()) as u64;
         let samples = vec![json!({"delegations":["0","3","3","1"],"amounts":"0..=13 and the same box scaled by 1e6+3, 1e12+7, ~1e18/n with +-1 perturbations"}), json!({"delegations": ls[ls.len() / 2], "amounts": "0..=sum+6"})];
         finish(self.name(), acc, n, samples, t0)
     }
@@ -295,6 +330,8 @@ impl Runnable for C12Enum {
 // C17
 
 pub struct C17Enum {
+    /// a swap denom listed twice in the dispatcher's configuration (UpdateSwapDenom never de-duplicates)
+    pub duplicate_denom: Option<&'static str>,
     pub balances: Vec<u128>,
     pub bonded: Vec<u128>,
     pub prices: Vec<&'static str>,
@@ -475,7 +512,11 @@ impl Runnable for C17Enum {
         let mut bases: Vec<Chain> = vec![];
         for r in &self.rates {
             for p in &self.prices {
-                bases.push(c17_base(r, p, third));
+                let mut b = c17_base(r, p, third);
+                if let Some(d) = self.duplicate_denom {
+                    b.tx(OWNER, DISP, &json!({"update_swap_denom":{"swap_denom":d,"is_add":true}}), &[]).expect("duplicate swap denom");
+                }
+                bases.push(b);
             }
         }
         let mut tuples: Vec<(usize, u128, u128, u128, u128, u128)> = vec![];
@@ -516,7 +557,10 @@ impl Runnable for C17Enum {
         let price = v["price"].as_str().unwrap_or("1").to_string();
         let rate_s: &'static str = Box::leak(rate.into_boxed_str());
         let price_s: &'static str = Box::leak(price.into_boxed_str());
-        let base = c17_base(rate_s, price_s, g("uusdr") > 0);
+        let mut base = c17_base(rate_s, price_s, g("uusdr") > 0 || self.third_denom.len() > 1);
+        if let Some(d) = self.duplicate_denom {
+            base.tx(OWNER, DISP, &json!({"update_swap_denom":{"swap_denom":d,"is_add":true}}), &[]).expect("duplicate swap denom");
+        }
         let mut acc = EAcc::default();
         if verbose {
             println!("  input {}", v);
